@@ -40,7 +40,8 @@ import (
 const c41BlkNum = 7
 
 type c41Msg struct {
-	K     string `json:"k"`               // prop | end | com
+	K     string `json:"k"`               // prop | end | com | peer
+	Ev    string `json:"ev,omitempty"`    // peer: connection event of participant From: disc | conn | hb | hs
 	From  int    `json:"from"`            // sender position (mod N); prop: proposer slot (mod 3)
 	P     int    `json:"p,omitempty"`     // proposer slot 0..2 the message is about (end/com)
 	Empty bool   `json:"empty,omitempty"` // endorse / commit the proposer's empty block
@@ -63,13 +64,19 @@ type c41Case struct {
 	Msgs      []c41Msg `json:"msgs"`
 }
 
-var c41AllKinds = []string{"prop", "end", "end", "end", "com", "com"}
+var c41AllKinds = []string{"prop", "end", "end", "end", "com", "com", "peer"}
 
 func genC41Msg(n int, forge bool, kinds []string) *rapid.Generator[c41Msg] {
 	return rapid.Custom(func(t *rapid.T) c41Msg {
 		m := c41Msg{K: rapid.SampledFrom(kinds).Draw(t, "k")}
 		slot := rapid.SampledFrom([]int{0, 0, 0, 1, 1, 2}).Draw(t, "slot")
 		switch m.K {
+		case "peer":
+			// a participant (often one that already spoke) disconnects / reconnects / sends a heartbeat
+			m.From = rapid.IntRange(0, n-1).Draw(t, "from")
+			m.Ev = rapid.SampledFrom([]string{"disc", "disc", "disc", "conn", "hb", "hs"}).Draw(t, "ev")
+			m.Dup = rapid.SampledFrom([]int{0, 0, 1}).Draw(t, "dup")
+			return m
 		case "prop":
 			m.From = slot
 			m.Alt = rapid.SampledFrom([]bool{false, false, false, true}).Draw(t, "alt")
@@ -375,6 +382,13 @@ func (l *labelOnce) Label(s string) {
 	}
 }
 
+// c41PeerEvents: the peer-pool connection events of shim consensus/vbft/verif_export_peerpool.go.
+type c41PeerEvents interface {
+	VerifPeerDisconnected(peerIdx uint32) error
+	VerifPeerHandshake(peerIdx uint32, msg *vbft.VerifPeerHandshakeMsg) error
+	VerifPeerHeartbeat(peerIdx uint32, msg *vbft.VerifPeerHeartbeatMsg) error
+}
+
 type c41Obs struct {
 	eDone, cDone []bool
 	signers      map[string][]int
@@ -505,6 +519,36 @@ func c41Play(ctx *ev.Ctx, c c41Case, f *c41Fix, withDups bool) c41Obs {
 					m.endorsed(who, s, msg.Empty, true)
 					mark(m.direct, who, se{s, msg.Empty})
 				}
+			case "peer":
+				// connection events of the peer pool (shim verif_export_peerpool.go; skipped while the
+				// shim is not in the tree). They change nobody's support.
+				pe, ok := interface{}(srv).(c41PeerEvents)
+				if !ok {
+					lab.Label("skip:peer-events-shim-missing")
+					break
+				}
+				who := pidx(mod(msg.From, N))
+				pnc = ev.Catch(func() {
+					switch msg.Ev {
+					case "disc":
+						err = pe.VerifPeerDisconnected(who)
+					case "hb":
+						err = pe.VerifPeerHeartbeat(who, &vbft.VerifPeerHeartbeatMsg{CommittedBlockNumber: c41BlkNum - 1})
+					case "hs":
+						err = pe.VerifPeerHandshake(who, &vbft.VerifPeerHandshakeMsg{CommittedBlockNumber: c41BlkNum - 1})
+					default:
+						err = srv.VerifPeerConnected(who)
+					}
+				})
+				if pnc == "" && err != nil {
+					ctx.Failf("peer event %s of participant %d failed: %v", msg.Ev, who, err)
+				}
+				if judged {
+					lab.Label("peer-event:" + msg.Ev)
+					if msg.Ev == "disc" && len(m.appear[mod(msg.From, N)]) > 0 {
+						lab.Label("peer-event:supporter-disconnects-before-sealing")
+					}
+				}
 			case "com":
 				cm := f.commit(msg)
 				pnc = ev.Catch(func() { err = srv.VerifNewBlockCommitment(cm) })
@@ -516,6 +560,7 @@ func c41Play(ctx *ev.Ctx, c c41Case, f *c41Fix, withDups bool) c41Obs {
 							ctx.Failf("first commit of committer %d rejected: %v", pidx(who), err)
 						}
 						m.committed[who] = k
+						mark(m.direct, who, k) // the committer's own signature is recorded with its first commit
 					} else if prev == k {
 						if err != nil {
 							ctx.Failf("re-delivered commit of committer %d for the same block rejected: %v", pidx(who), err)
@@ -665,6 +710,9 @@ func c41Play(ctx *ev.Ctx, c c41Case, f *c41Fix, withDups bool) c41Obs {
 			hash := hdr.Hash()
 			seen := pset{}
 			for i, pk := range hdr.Bookkeepers {
+				if pk == nil {
+					ctx.Failf("sealed %s: bookkeeper %d is a nil public key", key, i)
+				}
 				pos, ok := posOf[pkBytes(pk)]
 				if !ok {
 					ctx.Failf("sealed %s: bookkeeper %d is not a validator key", key, i)
@@ -706,7 +754,7 @@ func c41Play(ctx *ev.Ctx, c c41Case, f *c41Fix, withDups bool) c41Obs {
 					continue
 				}
 				if !seen[who] {
-					ctx.Failf("sealed %s lacks the signature of participant %d, who endorsed exactly this block and nothing else (signers %v)", key, pidx(who), seen.list())
+					ctx.Failf("sealed %s lacks the signature of participant %d, who endorsed / committed exactly this block and nothing else and is counted for the decisions (signers %v)", key, pidx(who), seen.list())
 				}
 			}
 			if len(seen) > 1 {
@@ -829,7 +877,7 @@ func runC41Gcc(ctx *ev.Ctx, c c41Case) {
 
 func TestC41(t *testing.T) {
 	ev.Drive(t, "C41",
-		"cases: N=4..10 (thorough ..13), C=1..(N-1)/3; mode pool: one-round history of 1..4N proposal/endorse/commit messages over 3 proposers (byte-identical AND re-signed duplicates of already counted participants - own endorsements, commits, embedded endorser signatures -, equivocating endorsers, conflicting proposals and commits, empty-block votes, commits embedding endorser signatures, optionally forged embedded entries) fed to the real BlockPool, decisions judged after every message, all proposals sealed at the end, plus a second run with messages re-delivered in a row (byte-identical or re-signed); "+
+		"cases: N=4..10 (thorough ..13), C=1..(N-1)/3; mode pool: one-round history of 1..4N proposal/endorse/commit messages over 3 proposers (byte-identical AND re-signed duplicates of already counted participants - own endorsements, commits, embedded endorser signatures -, equivocating endorsers, conflicting proposals and commits, peer disconnect/reconnect/heartbeat/handshake events of participants (also of supporters, before sealing), empty-block votes, commits embedding endorser signatures, optionally forged embedded entries) fed to the real BlockPool, decisions judged after every message, all proposals sealed at the end, plus a second run with messages re-delivered in a row (byte-identical or re-signed); "+
 			"mode gcc: getCommitConsensus on a raw commit-message list in which a committer may appear several times. "+
 			"non-trivial: a decision (endorseDone or commitDone / consensus) is reached AND some participant spoke more than once (duplicate, conflicting or embedded-again message); distinct by JSON encoding of the case",
 		genC41, runC41)
